@@ -283,6 +283,12 @@ inductive Op where
   | lDelSlice (v : Nat) (lo hi st : Option Int)
   | lSort (v : Nat) (rev : Bool)
   | lForAppend (v : Nat) (bound : Nat)                  -- for x in v: if len(v) < bound: v.append(x)
+  | lInsert (v : Nat) (i : Int) (x : Val)               -- v.insert(i, x)
+  | lPop (v : Nat) (i : Option Int)                     -- v.pop() / v.pop(i)    (observed: the item)
+  | lRemove (v : Nat) (x : Val)                         -- v.remove(x)
+  | lReverse (v : Nat)                                  -- v.reverse()
+  | lClear (v : Nat)                                    -- v.clear()
+  | lCopyM (u v : Nat)                                  -- u = v.copy()
   -- all kinds
   | len (v : Nat)
   | eq (v w : Nat)
@@ -303,6 +309,13 @@ inductive Op where
   | dGetM (v : Nat) (k : String) (dflt : Option Val)    -- v.get(k[, dflt])
   | dHas (v : Nat) (k : String)                         -- k in v
   | dKeys (v : Nat) (which : Nat)                       -- sorted observation of list(v.keys()/values()/items()) : count only for values
+  | dUpdate (v w : Nat)                                 -- v.update(w)           (w a dict, maybe v itself)
+  | dUpdatePairs (v : Nat) (kvs : List (String × Val))  -- v.update([(k, x), …])
+  | dUpdateKw (v : Nat) (kvs : List (String × Val))     -- v.update(k=x, …)
+  | dPop (v : Nat) (k : String) (dflt : Option Val)     -- v.pop(k[, dflt])      (observed: the value)
+  | dSetDefault (v : Nat) (k : String) (dflt : Option Val)  -- v.setdefault(k[, dflt])
+  | dCopyM (u v : Nat)                                  -- u = v.copy()
+  | dClear (v : Nat)                                    -- v.clear()
   -- sets
   | sNew (v : Nat) (xs : List Val)                      -- v = {x, …}            BUILD_SET   (xs ≠ [])
   | sEmpty (v : Nat)                                    -- v = set()
@@ -312,6 +325,12 @@ inductive Op where
   | sAdd (v : Nat) (x : Val)
   | sBin (op : SetOp) (u v w : Nat)                     -- u = v <op> w
   | sIBin (op : SetOp) (v w : Nat)                      -- v <op>= w
+  | sUpdate (v w : Nat)                                 -- v.update(w)           (w a set, maybe v itself)
+  | sUpdateSrc (v : Nat) (s : Src)                      -- v.update(<tuple|str|scalar>)
+  | sRemove (v : Nat) (x : Val)                         -- v.remove(x)
+  | sDiscard (v : Nat) (x : Val)                        -- v.discard(x)
+  | sClear (v : Nat)                                    -- v.clear()
+  | sCopyM (u v : Nat)                                  -- u = v.copy()
 deriving DecidableEq, Repr, Inhabited
 
 /-! ### Go maps -/
@@ -436,6 +455,26 @@ def forAppend (bound : Nat) : Nat → Nat → Arrs × Hdr → Arrs × Hdr
 
 def setBin := setBinBy goEq
 
+/-- `list.insert`: the index is clamped like a slice bound -/
+def insertPos (n : Nat) (i : Int) : Nat :=
+  let j : Int := if i < 0 then (if i + n < 0 then 0 else i + n) else i
+  (if j > n then (n : Int) else j).toNat
+
+/-- `l.Items = append(l.Items, nil); copy(l.Items[i+1:], l.Items[i:]); l.Items[i] = item` -/
+def insertItem (arrs : Arrs) (hd : Hdr) (i : Nat) (x : Val) : Arrs × Hdr :=
+  let old := readHdr arrs hd
+  let r := goAppend arrs hd [Val.none]
+  (goWrite r.1 r.2 (old.take i ++ x :: old.drop i), r.2)
+
+/-- `d.update(other)`: `other` has been read into a fresh dict first (DictNew), then merged key by key -/
+def dictMerge (m other : List (String × Val)) : List (String × Val) := other.foldl (fun m p => dictSet m p.1 p.2) m
+
+/-- `delete(s.items, x)` -/
+def setDelBy (eqv : Val → Val → Bool) (ks : List Val) (x : Val) : List Val := ks.filter (fun y => !eqv y x)
+
+/-- `for item := range other.items { s.items[item] = SetValue{} }` -/
+def setUpdateBy (eqv : Val → Val → Bool) (ks other : List Val) : List Val := other.foldl (setAddBy eqv) ks
+
 def step (h : MHeap) (op : Op) : MHeap × Res :=
   match op with
   | .alias v w => (h.bind v (h.id w), .ok)
@@ -553,6 +592,37 @@ def step (h : MHeap) (op : Op) : MHeap × Res :=
     match h.obj v with
     | some (.list hd) => (h.putList (h.id v) (forAppend bound (bound + hd.len + 1) 0 (h.arrs, hd)), .ok)
     | _ => (h, .stuck)
+  | .lInsert v i x =>
+    match h.obj v with
+    | some (.list hd) => (h.putList (h.id v) (insertItem h.arrs hd (insertPos hd.len i) x), .ok)
+    | _ => (h, .stuck)
+  | .lPop v i =>
+    match h.obj v with
+    | some (.list hd) =>
+      if hd.len = 0 then (h, .err .index)
+      else match checkIndex (i.getD (-1)) hd.len with
+        | .ok k => (h.putList (h.id v) (delItem h.arrs hd k), .val ((readHdr h.arrs hd).getD k .none))
+        | .error e => (h, .err e)
+    | _ => (h, .stuck)
+  | .lRemove v x =>
+    match h.obj v with
+    | some (.list hd) =>
+      match (readHdr h.arrs hd).findIdx? (fun y => pyEq y x) with
+      | some k => (h.putList (h.id v) (delItem h.arrs hd k), .ok)
+      | Option.none => (h, .err .value)
+    | _ => (h, .stuck)
+  | .lReverse v =>
+    match h.obj v with
+    | some (.list hd) => ({ h with arrs := goWrite h.arrs hd (readHdr h.arrs hd).reverse }, .ok)
+    | _ => (h, .stuck)
+  | .lClear v =>
+    match h.obj v with
+    | some (.list hd) => (h.putList (h.id v) (h.arrs, { hd with len := 0, cap := 0 }), .ok)   -- l.Items = nil
+    | _ => (h, .stuck)
+  | .lCopyM u v =>
+    match h.obj v with
+    | some (.list hd) => (h.newList u (readHdr h.arrs hd), .ok)
+    | _ => (h, .stuck)
   | .len v =>
     match h.obj v with
     | some (.list hd) => (h, .val (.int hd.len))
@@ -630,6 +700,36 @@ def step (h : MHeap) (op : Op) : MHeap × Res :=
     match h.obj v with
     | some (.dict m) => (h, if which == 0 then .vals (m.map (fun p => Val.str p.1)) else .vals (m.map (·.2)))
     | _ => (h, .stuck)
+  | .dUpdate v w =>
+    match h.obj v, h.obj w with
+    | some (.dict m), some (.dict mw) => (h.setObj (h.id v) (.dict (dictMerge m mw)), .ok)
+    | _, _ => (h, .stuck)
+  | .dUpdatePairs v kvs | .dUpdateKw v kvs =>
+    match h.obj v with
+    | some (.dict m) => (h.setObj (h.id v) (.dict (dictMerge m (dictOfList kvs))), .ok)
+    | _ => (h, .stuck)
+  | .dPop v k dflt =>
+    match h.obj v with
+    | some (.dict m) =>
+      match dictGet m k with
+      | some x => (h.setObj (h.id v) (.dict (dictDel m k)), .val x)
+      | Option.none => (h, match dflt with | some d => .val d | Option.none => .err .key)
+    | _ => (h, .stuck)
+  | .dSetDefault v k dflt =>
+    match h.obj v with
+    | some (.dict m) =>
+      match dictGet m k with
+      | some x => (h, .val x)
+      | Option.none => (h.setObj (h.id v) (.dict (dictSet m k (dflt.getD .none))), .val (dflt.getD .none))
+    | _ => (h, .stuck)
+  | .dCopyM u v =>
+    match h.obj v with
+    | some (.dict m) => let (h, id) := h.alloc (.dict m); (h.bind u id, .ok)
+    | _ => (h, .stuck)
+  | .dClear v =>
+    match h.obj v with
+    | some (.dict _) => (h.setObj (h.id v) (.dict []), .ok)
+    | _ => (h, .stuck)
   | .sNew v xs =>
     let (h, id) := h.alloc (.set (setOfListBy goEq xs)); (h.bind v id, .ok)
   | .sEmpty v => let (h, id) := h.alloc (.set []); (h.bind v id, .ok)
@@ -653,6 +753,33 @@ def step (h : MHeap) (op : Op) : MHeap × Res :=
     match h.obj v, h.obj w with
     | some (.set a), some (.set b) => (h.setObj (h.id v) (.set (setBin op a b)), .ok)
     | _, _ => (h, .stuck)
+  | .sUpdate v w =>
+    match h.obj v, h.obj w with
+    | some (.set a), some (.set b) => (h.setObj (h.id v) (.set (setUpdateBy goEq a b)), .ok)
+    | _, _ => (h, .stuck)
+  | .sUpdateSrc v s =>
+    match h.obj v with
+    | some (.set a) =>
+      match s.items with
+      | .ok xs => (h.setObj (h.id v) (.set (setUpdateBy goEq a xs)), .ok)
+      | .error e => (h, .err e)
+    | _ => (h, .stuck)
+  | .sRemove v x =>
+    match h.obj v with
+    | some (.set a) => if memBy goEq a x then (h.setObj (h.id v) (.set (setDelBy goEq a x)), .ok) else (h, .err .key)
+    | _ => (h, .stuck)
+  | .sDiscard v x =>
+    match h.obj v with
+    | some (.set a) => (h.setObj (h.id v) (.set (setDelBy goEq a x)), .ok)
+    | _ => (h, .stuck)
+  | .sClear v =>
+    match h.obj v with
+    | some (.set _) => (h.setObj (h.id v) (.set []), .ok)
+    | _ => (h, .stuck)
+  | .sCopyM u v =>
+    match h.obj v with
+    | some (.set ks) => let (h, id) := h.alloc (.set (setOfListBy goEq ks)); (h.bind u id, .ok)
+    | _ => (h, .stuck)
 
 def run (h : MHeap) : List Op → MHeap
   | [] => h
